@@ -463,7 +463,7 @@ func checkC04(c *Check, p *Program) {
 					if s == procBlock {
 						continue
 					}
-					for b := range reachableFrom(s, func(from, to *ssa.BasicBlock) bool { return to == procBlock }) {
+					for b := range reachUntil(s, procBlock) {
 						reach[b] = true
 					}
 				}
